@@ -843,13 +843,54 @@ func (n *DataRefKeyNode) String() string {
 
 // Operators ----------
 
+// Operator precedence, lowest to highest, as the parser applies it.  The
+// ternary operator binds less tightly than everything else and associates to
+// the right; a value, reference, call or literal binds tightest.
+const (
+	precTernary = 0
+	precUnary   = 8
+	precPrimary = 9
+)
+
+var binaryPrecedence = map[string]int{
+	"?:":  1,
+	"or":  2,
+	"and": 3,
+	"==":  4, "!=": 4,
+	"<": 5, ">": 5, "<=": 5, ">=": 5,
+	"+": 6, "-": 6,
+	"*": 7, "/": 7, "%": 7,
+}
+
+// precedence returns how tightly the outermost operator of the expression binds.
+func precedence(n Node) int {
+	switch n := n.(type) {
+	case *TernNode:
+		return precTernary
+	case interface{ precedence() int }: // the binary operators
+		return n.precedence()
+	case *NotNode, *NegateNode:
+		return precUnary
+	}
+	return precPrimary
+}
+
+// operand prints n as an operand of an operator that needs it to bind at least
+// as tightly as min, in parentheses if it does not.
+func operand(n Node, min int) string {
+	if precedence(n) < min {
+		return "(" + n.String() + ")"
+	}
+	return n.String()
+}
+
 type NotNode struct {
 	Pos
 	Arg Node
 }
 
 func (n *NotNode) String() string {
-	return "not " + n.Arg.String()
+	return "not " + operand(n.Arg, precUnary)
 }
 
 func (n *NotNode) Children() []Node {
@@ -862,7 +903,7 @@ type NegateNode struct {
 }
 
 func (n *NegateNode) String() string {
-	return "-" + n.Arg.String()
+	return "-" + operand(n.Arg, precUnary)
 }
 
 func (n *NegateNode) Children() []Node {
@@ -875,8 +916,15 @@ type BinaryOpNode struct {
 	Arg1, Arg2 Node
 }
 
+// String prints the operands in parentheses where the parser would otherwise
+// group them differently (binary operators associate to the left).
 func (n *BinaryOpNode) String() string {
-	return n.Arg1.String() + " " + n.Name + " " + n.Arg2.String()
+	var prec = n.precedence()
+	return operand(n.Arg1, prec) + " " + n.Name + " " + operand(n.Arg2, prec+1)
+}
+
+func (n *BinaryOpNode) precedence() int {
+	return binaryPrecedence[n.Name]
 }
 
 func (n *BinaryOpNode) Children() []Node {
@@ -906,7 +954,7 @@ type TernNode struct {
 }
 
 func (n *TernNode) String() string {
-	return n.Arg1.String() + "?" + n.Arg2.String() + ":" + n.Arg3.String()
+	return operand(n.Arg1, precTernary+1) + "?" + n.Arg2.String() + ":" + n.Arg3.String()
 }
 
 func (n *TernNode) Children() []Node {
